@@ -56,12 +56,32 @@ impl LspProject {
                     .collect());
             }
 
+            // The lexer counts columns in characters; the protocol counts them in UTF-16
+            // code units. The tokens cover the whole text, so walk them to find where
+            // each one starts in those units.
+            let mut column = 0;
+            let tokens: Vec<Token> = result
+                .0
+                .into_iter()
+                .map(|mut tok| {
+                    tok.col = column;
+                    match tok.token_type {
+                        TokenType::Newline if tok.text != "\u{c}" => column = 0,
+                        _ => {
+                            for c in tok.text.chars() {
+                                column = if c == '\n' { 0 } else { column + c.len_utf16() };
+                            }
+                        }
+                    }
+                    tok
+                })
+                .collect();
+
             // The conversion gives each token its absolute line and column; the protocol
             // wants each position relative to the previous token.
             let mut previous_line = 0;
             let mut previous_start = 0;
-            return Ok(result
-                .0
+            return Ok(tokens
                 .into_iter()
                 .filter_map(|tok| LspTokenType(tok).into())
                 .map(|mut token: SemanticToken| {
